@@ -366,7 +366,7 @@ impl RtpsWriterProxy {
 } // impl
 
 // Verification hook: read-only view of the acknowledgment state.
-#[cfg(rustdds_verif)]
+#[cfg(all(rustdds_verif, any(not(rustdds_verif_only), rustdds_verif_c01, rustdds_verif_c03)))]
 impl RtpsWriterProxy {
   /// (ack_base, keys of `changes`, received_heartbeat_count, sent_ack_nack_count)
   pub(crate) fn verif_view(&self) -> (i64, Vec<i64>, i32, i32) {
@@ -380,7 +380,7 @@ impl RtpsWriterProxy {
 }
 
 // Verification hooks (C02): read-only digest of the reception state.
-#[cfg(rustdds_verif)]
+#[cfg(all(rustdds_verif, any(not(rustdds_verif_only), rustdds_verif_c02)))]
 impl RtpsWriterProxy {
   /// (ack_base, keys of `changes` that are >= ack_base)
   pub(crate) fn verif_c02_digest(&self) -> (i64, Vec<i64>) {
@@ -396,7 +396,7 @@ impl RtpsWriterProxy {
 }
 
 // Verification hook: read-only view of the sequence number bookkeeping.
-#[cfg(rustdds_verif)]
+#[cfg(all(rustdds_verif, any(not(rustdds_verif_only), rustdds_verif_c06)))]
 impl RtpsWriterProxy {
   /// (ack_base, keys of `changes`, received_heartbeat_count)
   pub(crate) fn verif_digest(&self) -> (i64, Vec<i64>, i32) {
